@@ -77,6 +77,10 @@ func (r *decompressor) Reset(under io.Reader, _ []byte) error {
 	r.peekSize = 0
 	r.eof = false
 	r.err = nil
+	// forget the previous stream's output: undelivered bytes must not be
+	// handed out, and its history must not be a legal match source.
+	r.writePos = 0
+	r.readPos = 0
 	r.state.reset()
 	return nil
 }
